@@ -23,7 +23,8 @@ Ports     == {"absent", "given"}
 (* the ldapi "path" is the host component of the URL *)
 Paths     == {"absent", "encoded", "withport", "emptywithport"}
 Streams   == {"none", "tcp", "unix", "invalid"}
-Timeouts  == {"none", "short"}
+(* "huge": conn_timeout set to the largest Duration there is - it never fires, and setting it must not change anything else *)
+Timeouts  == {"none", "short", "huge"}
 Endpoints == {"listening", "refused", "silent"}
 
 Rows == [scheme : Schemes, host : Hosts, port : Ports, path : Paths, stream : Streams,
@@ -118,7 +119,7 @@ TableLaws(r) ==
   /\ d.errs \subseteq ErrClasses
   /\ (d.kind \in {"Ok", "OkOrErr"}) <=> (d.route # NoRoute)
   /\ (d.kind = "Ok") <=> (d.errs = {})
-  /\ d.kind = "Pending" => r.timeout = "none"                  \* row 11: a timeout bounds every row
+  /\ d.kind = "Pending" => r.timeout # "short"                 \* row 11: a timeout bounds every row
   /\ r.scheme = "ldapi" /\ d.route # NoRoute => d.route.sec = "plain"
   /\ r.scheme = "ldaps" /\ d.route # NoRoute => d.route.sec = "tls"      \* never downgraded by a table row
   /\ r.scheme = "ldap" /\ r.starttls /\ d.route # NoRoute => d.route.sec = "starttls"
